@@ -102,6 +102,23 @@ class SDict:
         self.val_fn = lambda k, ov=ov, n=n: _pick(k, n, val, ov)
         self.length = n + 1
 
+    def keys(self):
+        return SList(self.length, lambda k: self.key_fn(k), name="keys")
+
+    def __iter__(self):
+        raise Undecided("iteration over a symbolic dict without a loop contract")
+
+    def __getitem__(self, key):
+        """Lookup by key: for keys of an injective naming function name(k) the entry index is k."""
+        import z3
+        inj = getattr(engine(), "injective", ())
+        if isinstance(key, SStr) and z3.is_app(key.t) and key.t.num_args() == 1 and key.t.decl().name() in inj:
+            k = Num(key.t.arg(0))
+            engine().oblige("dict-key-present", (k >= 0) & (k < self.length) & self.key_fn(k).__eq__(key), kind="call-pre",
+                            cls="input", meta={"dict": self.name})
+            return self.val_fn(k)
+        raise Undecided("lookup in a symbolic dict by a key that is not an indexed name")
+
     def havoc(self, base):
         raise Undecided("havoc of a symbolic dict")
 
